@@ -1,3 +1,4 @@
+import Mqtt5V.Proofs.TraceDup
 import Mqtt5V.Proofs.Sender
 import Mqtt5V.Proofs.Replies
 /-! # C02 — no silent loss (conservation core)
@@ -105,5 +106,24 @@ theorem try_again_never_surfaces (s : S) (i : In) : ∀ id, Ev.done id .tryAgain
 theorem replies_resend_reaches_every_waiter (r : Model.Replies.R) :
     (Model.Replies.step r .resendUnanswered).2 = r.handlers.map (fun h => ⟨h.w, .tryAgain, 0⟩) ∧
     (Model.Replies.step r .resendUnanswered).1.handlers = [] := ⟨rfl, rfl⟩
+
+/-! ## the composed client model (`Model/Trace.lean`; tie: every H-client transcript of the real client must be accepted) -/
+section ComposedModel
+open Mqtt5V.Model
+
+/-- **C02 (retransmission half) end to end, every accepted history**: every transmission of an operation's request — on whatever connection,
+after whatever losses — carries the same packet identifier and the same bytes (DUP masked). (That an accepted request is eventually
+retransmitted and completed is liveness: the healing-suffix monitor.) -/
+theorem composed_retransmission_same_identifier_and_bytes (tr : List Trace.Ev) (hacc : Trace.accepts tr = true) (op p1 p2 b1 b2 : Nat)
+    (u1 : Trace.usesPid tr op p1) (u2 : Trace.usesPid tr op p2) (v1 : Trace.usesBody tr op b1) (v2 : Trace.usesBody tr op b2) : p1 = p2 ∧ b1 = b2 := by
+  obtain ⟨s, hr⟩ := (Mqtt5V.Proofs.Trace.accepts_iff _).1 hacc
+  exact ⟨Mqtt5V.Proofs.Trace.pid_stable hr u1 u2, Mqtt5V.Proofs.Trace.retransmission_identical hacc v1 v2⟩
+
+/-- a success is never reported for a request that was not (re)transmitted and acknowledged: see `Props/C01`, `Props/C14` -/
+example : Trace.accepts [.init 1 .sub 1, .connUp none, .wr, .pk (.subscribe 1 9 4), .wrFail, .connUp none, .wr, .pk (.subscribe 1 9 4), .wrOk,
+    .rx ⟨.suback, 9, [0], 0, true⟩, .doneOk 1 [0] 0] = true := by decide
+example : Trace.accepts [.init 1 .sub 1, .connUp none, .wr, .pk (.subscribe 1 9 4), .wrFail, .connUp none, .wr, .pk (.subscribe 1 10 4)] = false := by decide
+
+end ComposedModel
 
 end Mqtt5V.Props.C02
